@@ -39,12 +39,16 @@ THEOREMS = [
     "Ural.Props.C02.canonicalize_idempotent_of_pathIdem",
     "Ural.Props.C02.canonicalize_idempotent_partial",
     "Ural.Props.C02.canonicalize_idempotent",
-    "Ural.Props.C02.idempotent_fails_outside",
     "Ural.Props.C02.protoLetters_https",
     "Ural.CanonIdem.pathIdem",
     "Ural.CanonIdem.cleanUrl_printed_id",
     "Ural.CanonIdem.canonParts_reparsed",
-    "Ural.Props.C01.canonicalize_reparse_partial",
+    "Ural.Props.C01.canonicalize_reparse",
+    "Ural.Props.C01.canonicalize_accepts_iff",
+    "Ural.CanonIdem.printed_last",
+    "Ural.CanonIdem.noSpace_safelyUnquote",
+    "Ural.CanonRoundTrip.userinfoBrackets_printed",
+    "Ural.BracketHost.bracketedHostOk_canon",
     "Ural.Props.C01.urlsplit_urlunsplit",
     "Ural.Props.C01.accessors_unsplitNetloc",
 ]
@@ -60,8 +64,8 @@ RULE = (
     "round trips. Both spellings also go through the model-vs-implementation comparison. "
     "Non-trivial = the transformation changed the string and canonicalize changed the base; "
     "distinct = distinct (base, variant, options). Whole-function idempotence is also explored on raw "
-    "strings (cases with `idem`): the witnesses of the side conditions of canonicalize_idempotent_partial "
-    "and a sample of the netloc torture strings of harness/urlrt.py without brackets. The parser/printer "
+    "strings (cases with `idem`): the former witnesses of the side conditions of canonicalize_idempotent_partial "
+    "(now fixed) and a sample of the netloc torture strings of harness/urlrt.py (brackets included). The parser/printer "
     "round trip streams of harness/urlrt.py (model parseUrl and whole-string canonicalizeUrl vs CPython / "
     "ural) run on both spellings of every case."
 )
@@ -83,10 +87,13 @@ UNPROVED = (
     "(canonPath factors through the resolved view); escape-equivalence (unquote_respects_equiv: %41 vs A, raw "
     "space vs %20, a non-ASCII character vs its escaped UTF-8 bytes). Whole function: idempotence in "
     "unquoted mode is a theorem about the URL STRING (canonicalize_idempotent_partial / canonicalize_idempotent, "
-    "parser = the Lean model of urlsplit + accessors, compared with CPython on every run), under explicit side "
-    "conditions: default protocol of 1-64 letters, the bracket conditions of C01, no '%' in the host, an "
-    "authority is printed, the result does not end with white space; FullIdempotent is false outside "
-    "(idempotent_fails_outside; KF-C02-2, KF-C02-3 are the implementation's failures there). NOT theorems: "
+    "parser = the Lean model of urlsplit + accessors, compared with CPython on every run) for every string the "
+    "function accepts, under two explicit side conditions: default protocol of 1-64 letters (PROTOCOL_RE must "
+    "recognise it again) and no '%' in the parsed host (the accessor lower-cases the host while the cleaning pass "
+    "upper-cases escapes: the implementation IS idempotent there - witnesses in the corpus - but the proof would "
+    "need the idna decoder to be insensitive to the case of hex digits after '%'). The former side conditions on "
+    "brackets, on a printed authority and on a result ending with white space are gone (they were KF-C01-1/2, "
+    "KF-C02-3, KF-C02-2, now fixed: printed_last, printSplit_normal). NOT theorems: "
     "whole-function idempotence in quoted mode and the whole-function spelling-insensitivity / mode round "
     "trips, which compose the component theorems with the re-parse of the printed URL; punycode vs Unicode spelling of a label beyond the host rule's idempotence (idna codec "
     "abstract). These are decided on every run by the oracle over every transformation of the statement and "
@@ -152,8 +159,8 @@ def cases(rng, tier):
         for quoted, sf in OPTS:
             for t in TN:
                 yield _mk(urlgen.with_(b, segments=segs, query=q), [t], 1, quoted, sf)
-    # whole-function idempotence on raw strings: the witnesses of the side conditions of
-    # canonicalize_idempotent_partial, then netloc torture strings without brackets
+    # whole-function idempotence on raw strings: the former witnesses of the side conditions of
+    # canonicalize_idempotent_partial, then netloc torture strings
     for u in IDEM_CORPUS:
         for quoted, sf in OPTS:
             yield dict(_mk({"raw": u}, [], 0, quoted, sf), idem=True)
